@@ -5,6 +5,7 @@ import (
 	"math/big"
 	"math/rand/v2"
 	"testing"
+	"time"
 
 	"github.com/NethermindEth/juno/core/crypto"
 	"github.com/NethermindEth/juno/core/felt"
@@ -362,13 +363,18 @@ func checkScript(r *lib.Run, idx int, s script) {
 func TestC01(t *testing.T) {
 	r := lib.Start("C01", "exploration")
 	n := r.N(600, 25000)
+	rule := "case = random op script (insert/overwrite/same-value/zero-write to present+absent, 1-6 commit batches, heights 251/64/small, "+
+		"clustered keys) run through 8 trie configurations (legacy persistent kept-open/reopened, legacy temp, trie2 temp, trie2 rawdb class/contract/storage "+
+		"with commit+reopen per batch) plus whole-state chains on both state backends; root after every batch compared with the independent recursive definition; "+
+		"distinct = distinct (shape, final root) with at least one non-zero write"
+	r.SetFinish(rule, 50)
 	r.Cases(n, 0, func(idx int) {
-		checkScript(r, idx, genScript(lib.Rng("C01/trie", uint64(idx))))
+		s := genScript(lib.Rng("C01/trie", uint64(idx)))
+		// normal: milliseconds per script; a trie operation that never returns (and allocates) on a
+		// broken tree must end in a verdict, not in the kernel killing the process
+		r.Bounded(idx, "trie-operations-of-one-script", 3*time.Minute, func() any { return s }, func() { checkScript(r, idx, s) })
 	})
 	stateLayer(r)
 	r.Assume("crypto.Pedersen / crypto.Poseidon are trusted (the oracle recomputes the commitment with the same primitives)")
-	r.Finish("case = random op script (insert/overwrite/same-value/zero-write to present+absent, 1-6 commit batches, heights 251/64/small, "+
-		"clustered keys) run through 8 trie configurations (legacy persistent kept-open/reopened, legacy temp, trie2 temp, trie2 rawdb class/contract/storage "+
-		"with commit+reopen per batch) plus whole-state chains on both state backends; root after every batch compared with the independent recursive definition; "+
-		"distinct = distinct (shape, final root) with at least one non-zero write", 50)
+	r.Finish(rule, 50)
 }
